@@ -216,6 +216,12 @@ func gitExec(c *Ctx, op string) {
 	case upan != "":
 		res = "panic"
 		c.PropFail("git-panic", upan, op)
+	case uerr != nil && strings.Contains(fstr, "mtime=now") && catOf(uerr) == "rio-usage-error":
+		// the one filter setting that cannot be applied: refused, as tar and zip refuse it
+		res = "err " + catOf(uerr)
+		c.H("git-mtime-now-refused")
+		c.EmitR(op, modelOp, res)
+		return
 	case uerr != nil:
 		res = "err " + catOf(uerr)
 		cl := "git-unpack-failed"
@@ -226,6 +232,9 @@ func gitExec(c *Ctx, op string) {
 		c.EmitR(op, "skip", "skip")
 		return
 	default:
+		if strings.Contains(fstr, "mtime=now") {
+			c.PropFail("git-filter-ignored", "an unpack under the filter mtime=now — which tar and zip refuse as a usage error — answered success; the entries carry the default time", op)
+		}
 		sn, _ := Snapshot(dst)
 		var lines []string
 		for _, e := range sn {
@@ -675,6 +684,7 @@ func gitEngine(c *Ctx) {
 	gitHostile(c, "git-hostile")
 	laters := []string{"none", "commit", "branch", "dirty", "detach"}
 	filts := []string{losslessUnpackStr, losslessUnpackStr, "uid=mine,gid=mine,mtime=follow,sticky=follow,setid=follow,dev=follow", "uid=5,gid=6,mtime=@99,sticky=follow,setid=follow,dev=follow"}
+	gitExec(c, fmt.Sprintf("git %d none uid=follow,gid=follow,mtime=now,sticky=follow,setid=follow,dev=follow", c.Rand()%100000))
 	for k := 0; k < n; k++ {
 		f := filts[c.Intn(len(filts))]
 		switch k { // history of the process: explicit owners first, then follow filters (nothing may carry over)
@@ -817,9 +827,11 @@ func gitHostile(c *Ctx, op string) {
 	}
 	cases := []hcase{
 		{"mode-100664", sub([3]string{"100664", "gw", blob}, [3]string{"100644", "n", blob}), [][3]string{{"gw", "g", "payload\n"}, {"n", "f", "payload\n"}}},
-		{"mode-100600", sub([3]string{"100600", "odd", blob}), [][3]string{{"odd", "?", "payload\n"}}},
+		{"mode-100600", sub([3]string{"100600", "odd", blob}), [][3]string{{"odd", "r", "payload\n"}}},
+		{"mode-100775", sub([3]string{"100775", "m775", blob}), [][3]string{{"m775", "X", "payload\n"}}},
+		{"mode-100640", sub([3]string{"100640", "m640", blob}), [][3]string{{"m640", "r", "payload\n"}}},
 		{"mode-0", sub([3]string{"0", "zero", blob}), [][3]string{{"zero", "?", "payload\n"}}},
-		{"mode-100777", sub([3]string{"100644", "a", blob}, [3]string{"100777", "b", blob}), [][3]string{{"a", "f", "payload\n"}, {"b", "?", "payload\n"}}},
+		{"mode-100777", sub([3]string{"100644", "a", blob}, [3]string{"100777", "b", blob}), [][3]string{{"a", "f", "payload\n"}, {"b", "X", "payload\n"}}},
 		{"abs-name", sub([3]string{"100644", "/abs", blob}), [][3]string{{"/abs", "f", "payload\n"}}},
 		{"dotdot-file", sub([3]string{"100644", "..", blob}), nil},
 		{"dotdot-dir", sub([3]string{"40000", "..", sub([3]string{"100644", "escaped", blob})}), nil},
@@ -866,6 +878,10 @@ func gitHostile(c *Ctx, op string) {
 		case upan != "":
 			res = "panic"
 			c.PropFail("git-panic", "a commit with a hand-written tree ("+hc.name+") made the unpack panic: "+upan, sop)
+		case uerr != nil && strings.HasPrefix(hc.name, "mode-100"):
+			// git itself lists and checks out every 100xxx mode as 100644 or 100755 (by the owner-execute bit)
+			res = "err " + catOf(uerr)
+			c.PropFail("git-unpack-failed", "a tree entry with file mode "+strings.TrimPrefix(hc.name, "mode-")+" — which git canonicalises to a regular or executable file — is refused: "+uerr.Error(), sop)
 		case uerr != nil:
 			res = "err " + catOf(uerr)
 			if catOf(uerr) != "rio-ware-corrupt" {
